@@ -20,7 +20,7 @@ namespace hm {
 
 static const char* OPK[] = {"create", "release", "call", "destroy_mock", "move_mock", "destroy_seq", "move_seq", "new_watched",
   "delete_watched", "copy_watched", "movecons_watched", "assign_watched", "moveassign_watched", "monitor", "push_tracer", "pop_tracer", "set_reporter"};
-static const char* FNN[] = {"f", "g", "f2", "v", "r"};
+static const char* FNN[] = {"f", "g", "f2", "v", "r", "cr"};
 static const char* OKN[] = {"done", "accept", "thrown", "nomatch", "forbidden", "seqmis", "logic_error", "nested_fatal", "other"};
 static const char* RKN[] = {"nomatch", "forbidden", "seqmis", "unfulfilled", "pending_destroyed", "seq_teardown", "still_alive", "unexpected_destruction", "other"};
 
